@@ -8,6 +8,7 @@
 #include <gsl/gsl_complex_math.h>
 #include "exact.h"
 #include <sstream>
+#include <map>
 #include <memory>
 
 using namespace squids;
@@ -71,6 +72,24 @@ static std::unique_ptr<gsl_matrix_complex, void (*)(gsl_matrix_complex*)> gsl_fr
   return std::unique_ptr<gsl_matrix_complex, void (*)(gsl_matrix_complex*)>(m, gsl_matrix_complex_free);
 }
 
+// Factory results obtained while static initializers run (namespace-scope constants of an application): the harness
+// objects precede the library's on the link line, so these are built before the library's own static data.
+// The specification's factories are functions of (kind, d, index) only, so the phase of the program cannot matter.
+struct StaticFactories {
+  std::map<std::string, SU_vector> t;
+  static std::string key(const std::string& op, int d, long i) { return op + "/" + std::to_string(d) + "/" + std::to_string(i); }
+  StaticFactories() {
+    for (int d = 2; d <= 6; d++) {
+      t.emplace(key("identity", d, 0), SU_vector::Identity(d));
+      for (int i = 0; i < d; i++) t.emplace(key("projector", d, i), SU_vector::Projector(d, i));
+      for (int i = 0; i < d * d; i++) t.emplace(key("generator", d, i), SU_vector::Generator(d, i));
+      for (int i = 0; i < d; i++) t.emplace(key("posproj", d, i), SU_vector::PosProjector(d, i));
+      for (int i = 0; i < d; i++) t.emplace(key("negproj", d, i), SU_vector::NegProjector(d, i));
+    }
+  }
+};
+static const StaticFactories g_static_factories;
+
 static void set_params(Const& params, int d, const std::vector<long>& h) {
   // h = th[1..np] ++ ph[1..np] in the pair order (0,1),(0,2),(1,2),(0,3),...
   int np = d * (d - 1) / 2, q = 0;
@@ -119,6 +138,8 @@ int main(int argc, char** argv) {
         SU_vector moved = make(); moved = make(); moved *= 3.0;
         SU_vector second = make();
         expect_same("factory-result-independent", second, keep, 0);
+        auto it = g_static_factories.t.find(StaticFactories::key(op, d, op == "identity" ? 0 : p[0]));
+        if (it != g_static_factories.t.end()) expect_same("factory-during-static-initialization", it->second, keep, 0);
       }
       if (op == "tomatrix") {
         auto m = a.GetGSLMatrix();
